@@ -114,3 +114,8 @@ class Offset(Transform):
     _cfg: object
 
     image = Function(_offset, 'image', '_cfg')
+
+
+def by_grp(grp):
+    """a module-level grouping function (GroupBy(callable))"""
+    return 'G' + str(grp)
